@@ -1,5 +1,5 @@
 """C18 -- secp256k1 point arithmetic equals the textbook group law."""
-from .. import constants, curvemachine, euclid, grouptrace, mulrec
+from .. import constants, coordbig, curvemachine, euclid, grouptrace, mulrec
 from . import c07
 
 
@@ -13,3 +13,4 @@ def run(ctx):
     curvemachine.run_exhaustive(ctx, only_secp=True)
     curvemachine.run_machine(ctx, only_secp=True)
     mulrec.checks(ctx, only_secp=True)      # jacobian_multiply's recursion (scalar reduction, halving), call by call
+    coordbig.coord_tables(ctx, which=("secp",))      # full size, in coordinates (slope witnesses, BigNat)
